@@ -17,6 +17,10 @@ import (
 func main() {
 	log.SetOutput(io.Discard)
 	log.SetLevel(log.PanicLevel)
+	if os.Getenv("VERIF_LOG") != "" { // debugging aid: the repository's own warnings on stderr
+		log.SetOutput(os.Stderr)
+		log.SetLevel(log.WarnLevel)
+	}
 	if len(os.Args) >= 4 && os.Args[1] == "child" {
 		checks.ChildMain(os.Args[2], os.Args[3])
 		return
